@@ -140,6 +140,14 @@ PROPS = {
         "level_note": "std::fs is a contract-only shim (shims/fs.rs): the confinement is a PRECONDITION of those shims, so a call on an unvalidated path fails verification; symlink resolution by the operating system is outside the lexical model (the crate creates no symlinks while extracting, a pre-existing symlink inside the target is followed); io::copy is an assumed contract; the 'reproduces the tree byte-for-byte' half depends on the filesystem's behaviour and on the decoders and is not decided",
         "undecided": ["for safe and consistent names the directory afterwards contains exactly the archive's tree with identical contents and modes (filesystem semantics + decoders: not expressible as a contract on this code)", "pre-existing symlinks inside the target directory"],
     },
+    "C19": {
+        "units": ["U5_header_writers", "U6_central_parser", "U8_entry_readers", "U7_writer", "U7b_append_copy"],
+        "kani": ["cp437"],
+        "technique": "Kani complete harness for the CP437 table (all 256 bytes, against the Unicode table shipped in CPython) + Verus contracts on the flag-driven decoding in both readers and on the writer's name bytes/flag, closed by a checked round-trip lemma",
+        "level_text": "Complete symbolic proof (Kani, all 256 byte values) that to_char is the Unicode consortium CP437 mapping as shipped in CPython; deductive proof (Verus, all byte strings, all flag words) that both the central-directory parser and the streaming local-header reader decode name and comment with UTF-8-lossy exactly when general-purpose bit 11 is set and with CP437 otherwise, never fail because of the text's content, and keep the stored bytes unchanged in file_name_raw (name_raw(), name(), comment() are proved to be plain projections); that the writer stores exactly utf8(name) in local and central header and sets bit 11 exactly for non-ASCII names; that every start_*/add_*/raw_copy call names the new entry with exactly the string it was given (add_directory: plus the trailing slash) and no later operation renames it; and a checked lemma that a name so written decodes back to the same string.",
+        "level_note": "Vec<u8>::from_cp437 / <&[u8]>::from_cp437 (std iterator adapters) are an assumed contract in Verus (`cp437(bytes)`, per-byte map) and a BOUNDED Kani stand-in on the real std code: all byte strings of length <= 2 (quick) / <= 3 (thorough), never counted as proved; String::from_utf8_lossy is std (uninterpreted utf8_lossy, axiom utf8_lossy(utf8(s)) == s); utf8 of an ASCII string = its bytes and CP437 identity below 0x80 are axioms (the latter decided for to_char by the Kani table harness); the archive comment is returned as raw bytes (ZipArchive::comment, proved a projection in unit U8b)",
+        "undecided": ["from_cp437 on byte strings longer than the Kani bound (argued: a per-byte map; bounded stand-in only)", "String::from_utf8_lossy replaces invalid sequences and never errors (std; uninterpreted)"],
+    },
     "C18": {
         "units": [],
         "kani": ["types"],
